@@ -1,6 +1,6 @@
 (* C08 - fits are equivariant under relabelling and changes of coordinates *)
 From Coq Require Import QArith List Bool Arith Permutation.
-From TW Require Import GJModel LSQ Rscale Shift Weights Clip ClipPerm Equivariance.
+From TW Require Import GJModel LSQ Rscale Shift Weights Clip ClipPerm Equivariance Unique.
 Import ListNotations.
 Open Scope Q_scope.
 
@@ -12,6 +12,15 @@ Theorem C08_general_fit_perm : forall l l' p q, Permutation l l' ->
   fit_general l' = FitOk p q -> (forall z, In z l -> 0 <= pw z) ->
   forall c', ssr l px p <= ssr l px c' /\ ssr l py q <= ssr l py c'.
 Proof. exact general_fit_perm. Qed.
+(* parameter level for the general family (uses uniqueness of the optimum for non-collinear data) *)
+Theorem C08_general_fit_perm_params : forall l l' p q p' q' a b c,
+  Permutation l l' -> (forall z, In z l -> 0 <= pw z) ->
+  fit_general l = FitOk p q -> fit_general l' = FitOk p' q' ->
+  In a l -> In b l -> In c l -> 0 < pw a -> 0 < pw b -> 0 < pw c -> noncollinear3 a b c ->
+  (qnth p' 0 == qnth p 0 /\ qnth p' 1 == qnth p 1 /\ qnth p' 2 == qnth p 2) /\
+  (qnth q' 0 == qnth q 0 /\ qnth q' 1 == qnth q 1 /\ qnth q' 2 == qnth q 2).
+Proof. exact general_fit_perm_params. Qed.
+Print Assumptions C08_general_fit_perm_params.
 Theorem C08_shift_fit_perm : forall l l', Permutation l l' ->
   fst (fit_shift l) == fst (fit_shift l') /\ snd (fit_shift l) == snd (fit_shift l').
 Proof. exact shift_fit_perm. Qed.
